@@ -214,6 +214,12 @@ def asan(ctx, ks):
     ctx.check(clean and not mism, "sanitizer report / abnormal exit / mismatch under the ASan image", observed={"rc": r.returncode, "stderr": r.stderr[-1500:], "mismatch": mism}, expected="clean exit", entry="asan")
 
 
+def fuzz_campaign(ctx, runs):
+    """coverage-guided tier (atheris/libFuzzer): oracle inside the target, empty and seeded corpus; a failure is re-run through the ordinary case checker"""
+    from .. import fuzz
+    fuzz.campaign(ctx, "quoter", runs, ctx.seed, "diff", "fuzz/quoter")
+
+
 def shards(tier, seed):
     out = [{"name": "singles", "fn": "singles", "kw": {}}, {"name": "nonstr", "fn": "nonstr", "kw": {}}]
     if tier == "quick":
@@ -228,6 +234,7 @@ def shards(tier, seed):
         for i in range(3):
             out.append({"name": "urls-%d" % i, "fn": "urls", "kw": {"n": 2500}})
         out.append({"name": "asan", "fn": "asan", "kw": {"ks": [1]}})
+        out.append({"name": "fuzz", "fn": "fuzz_campaign", "kw": {"runs": 150000}})
     else:
         for k in (1, 2, 3, 4):
             for part in range(4):
@@ -239,4 +246,5 @@ def shards(tier, seed):
         for i in range(6):
             out.append({"name": "urls-%d" % i, "fn": "urls", "kw": {"n": 30000}})
         out.append({"name": "asan", "fn": "asan", "kw": {"ks": [1, 2, 3, 4]}})
+        out.append({"name": "fuzz", "fn": "fuzz_campaign", "kw": {"runs": 6000000}})
     return out
